@@ -287,6 +287,22 @@ theorem definition_cdses_exact (len : Int) (ops : List Op) (r : Rec) (hok : Hist
     gid ∈ r.definition d.id ↔ gid ∈ specDefinition r.genes d :=
   definition_exact hrun hok a ha d hd hk gid
 
+/-- product names are compared for equality: a gene whose core annotations do not name the protocluster's
+    product itself — a shorter name contained in it ("NRPS" vs "NRPS-like"), a longer one, anything else — is
+    never one of its defining genes, wherever it lies and in whatever order things were added -/
+theorem definition_needs_exact_product (len : Int) (ops : List Op) (r : Rec) (hok : HistoryOK ops) (hrun : run len ops = .ok r)
+    (a : AreaT) (ha : a ∈ (liveAfter ops).areas) (d : AreaT) (hd : d ∈ nodes a) (hk : d.kind = .proto)
+    (g : Gene) (hg : g ∈ r.genes) (hne : ∀ p ∈ g.cores, p ≠ d.product) : g.id ∉ r.definition d.id := by
+  intro hm
+  have inv := (run_inv hok.opOK hrun).core
+  have := (definition_cdses_exact len ops r hok hrun a ha d hd hk g.id).1 hm
+  simp only [specDefinition, List.mem_map, List.mem_filter, Bool.and_eq_true] at this
+  obtain ⟨g', ⟨hg', _, hp⟩, hid⟩ := this
+  have := gene_of_id inv.ids hg hg' hid
+  subst this
+  have hp' : d.product ∈ g'.cores := by simpa using hp
+  exact hne _ hp' rfl
+
 /-- the pre / cross / post-origin sections of a region of the record: its genes, each in exactly the section
     `specSection` names (crossing genes → cross; in an origin-spanning region the genes of the part after the
     origin → post, the others → pre; in an ordinary region → post) -/
@@ -388,6 +404,14 @@ example : (run 1000 [.cds (g 0 910 920), .area (.mk 200 .sub (.compound [⟨900,
 example : (run 1000 [.cds (g 0 910 920), .area (.mk 200 .sub (.compound [⟨900, 1000, .fwd⟩, ⟨0, 50, .fwd⟩])
       (.simple ⟨0, 1, .fwd⟩) "" []), .cds (g 1 10 20), .peekArea 200, .clearSubs [], .peekCds]).toOption.map (·.log)
     = some [[[0, 1], [0], [], [1]], [[1, 0]]] := by
+  decide +kernel
+
+/-- product names: a gene that is core for "NRPS" only, inside the cores of an "NRPS-like" and an "NRPS"
+    protocluster, defines the second and not the first -/
+example : (run 1000 [.cds { id := 0, loc := .simple ⟨120, 180, .fwd⟩, cores := ["NRPS"] },
+      .area (.mk 100 .proto (.simple ⟨50, 500, .fwd⟩) (.simple ⟨100, 400, .fwd⟩) "NRPS-like" []),
+      .area (.mk 101 .proto (.simple ⟨60, 450, .fwd⟩) (.simple ⟨110, 350, .fwd⟩) "NRPS" [])]).toOption.map
+      (fun r => (r.definition 100, r.definition 101)) = some ([], [0]) := by
   decide +kernel
 
 end ASV.C08
